@@ -321,7 +321,7 @@ def run(ctx):
                  not ctx.quick)
 
     # recording author schedules: the library must ask for max(n, 1) exactly once
-    for i in range(ctx.n(1600, 16000)):
+    for i in range(ctx.n(1600, 160000)):
         desc, build, inputs = graders[i % len(graders)]
         inp = rng.choice(inputs)
         table = {0: 0.3, -1: 0.7, 1: rng.choice([1, 1.0, 0.9]), 2: 0.5, 3: rng.choice([0.25, 0, 1])}
